@@ -99,6 +99,11 @@ type Engine struct {
 func NewEngine(be Backend, extra []ref.FunSig) *Engine {
 	en := &Engine{E: yae.NewExpr(), Tr: &Tracer{}, Funs: map[string]*val.Val{}, Be: be}
 	en.E.UseCompiler(be.compiler())
+	if be == VMCall || be == Interp {
+		// these two engines also log every stage (tokens, trees, inferred type) to a writer that
+		// discards: enabling the log must not change any outcome
+		en.E.EnableDebug(io.Discard)
+	}
 	for _, f := range extra {
 		fv := MakeHarnessFun(f, en.Tr)
 		en.Funs[f.Impl] = fv
